@@ -463,7 +463,12 @@ func decodeTM(d *dumper, s network.Suite, buf []byte) (lit string, kind string) 
 	if !tp.Equal(onet.TreeMarshalTypeID) {
 		return "DNone", "other-type"
 	}
-	return "(DSome " + d.tm(m.(*onet.TreeMarshal)) + ")", "decodes"
+	tm := m.(*onet.TreeMarshal)
+	if len(tm.Children) == 0 {
+		// mutated bytes that still decode, to a description without root element (F06)
+		return "(DSome " + d.tm(tm) + ")", "decodes-rootless"
+	}
+	return "(DSome " + d.tm(tm) + ")", "decodes"
 }
 
 // decodeOuter says what bytes given to BinaryUnmarshaler decode to.
